@@ -345,10 +345,10 @@ func (m *FloodSub) handleValidMessage(
 ) {
 	channelID := pktInner.GetChannel()
 	msgId := pkt.ComputeMessageID()
-	if _, ok := m.seenMessages.Get(msgId); ok {
+	// Add is an atomic check-and-insert: it fails if the id was already seen.
+	if err := m.seenMessages.Add(msgId, pkt, 0); err != nil {
 		return
 	}
-	m.seenMessages.Set(msgId, pkt, 0)
 
 	pid, err := peer.IDB58Decode(pkt.GetFromPeerId())
 	if err != nil {
